@@ -22,7 +22,10 @@ Definition enc (e : event) : list N :=
    nlen (stack c); nlen (states c); nlen (parsed c); fst (hsnap c); snd (hsnap c)].
 
 (* input: configured depth limit, top-level items in execution order, truncated? *)
-Record input := { i_md : N; i_tops : list top; i_trunc : bool }.
+Record input := { i_md : N; i_tops : list top; i_trunc : bool; i_alt : list (str * str) }.
+
+(* sanitize_class_name on the declared names of this case, as a finite table computed by the harness *)
+Definition alt_of (i : input) (n : str) : str := match alookup n (i_alt i) with Some a => a | None => n end.
 
 Definition obs := (bool * list (list N))%type.
 
@@ -36,10 +39,12 @@ Definition obs_eqb (m o : obs) : bool :=
 
 (* guard conjuncts: 1 = F08a (true nesting within the limit), 2 = F08b (no fall-through),
    3 = no empty schema name reaches the tracker (F08d, fixed in the loader: must always hold now),
-   4 = tracker state is only dropped for the schema that is re-parsed next (must always hold) *)
+   4 = tracker state is only dropped for the schema that is re-parsed next (must always hold),
+   5 = the parser body honours the registration contract of C08_all_present (F08e when false) *)
 Definition guards (i : input) : list bool :=
   [guard_F08a (i_md i) (i_tops i); guard_F08b (i_md i) (i_tops i); forallb (fun x => names_truthy (top_call x)) (i_tops i);
-   forallb fresh_ok (i_tops i)].
+   forallb fresh_ok (i_tops i);
+   contract (alt_of i) (init (i_md i)) (i_tops i) && forallb (fun x => no_unreg (top_call x)) (i_tops i)].
 
 Definition run (cases : list (input * obs)) : list N := report obs_eqb model_obs guards cases.
 
